@@ -112,15 +112,15 @@ Lemma struct_ghost s mc h e d :
   Struct s ->
   Struct (mk (fast s) (maxv s) (value s) (waiters s) (futs s) (nfut s) (phase_of s) mc
              (init0 s) h (infl s) e d (enq s)).
-Proof. intros S. destruct S. constructor; cbn; assumption. Qed.
+Proof. intros St. destruct St. constructor; cbn; assumption. Qed.
 
 (* ---------- acquire ---------- *)
-Lemma take_S s v h :
+Lemma take_S s v h fa :
   Struct s -> waiters s = [] ->
-  Struct (mk (fast s) (maxv s) v [] (futs s) (nfut s) (phase_of s) (mustc s)
+  Struct (mk fa (maxv s) v [] (futs s) (nfut s) (phase_of s) (mustc s)
              (init0 s) h (infl s) (extra s) (dropped s) (enq s)).
 Proof.
-  intros S Hw. destruct S. constructor; cbn; try assumption.
+  intros St Hw. destruct St. constructor; cbn; try assumption.
   - now right.
   - intros ? ? [].
   - intros t f H1 H2. pose proof (S_pend0 t f H1 H2) as H. now rewrite Hw in H.
@@ -133,39 +133,39 @@ Lemma nowait_S s v h :
   Struct (mk (fast s) (maxv s) v (waiters s) (futs s) (nfut s) (phase_of s) (mustc s)
              (init0 s) h (infl s) (extra s) (dropped s) (enq s)).
 Proof.
-  intros S Hv. destruct S. constructor; cbn; try assumption.
+  intros St Hv. destruct St. constructor; cbn; try assumption.
   destruct S_pos0 as [H|H]; [lia|now right].
 Qed.
 
-Lemma take_yield_S s v t :
+Lemma take_yield_S s v t fa :
   Struct s -> waiters s = [] -> phase_of s t = Idle ->
-  Struct (mk (fast s) (maxv s) v [] (futs s) (nfut s) (upd (phase_of s) t FastYield) (mustc s)
+  Struct (mk fa (maxv s) v [] (futs s) (nfut s) (upd (phase_of s) t FastYield) (mustc s)
              (init0 s) (held s) (t :: infl s) (extra s) (dropped s) (enq s)).
 Proof.
-  intros S Hw Hp.
+  intros St Hw Hp.
   assert (Hold : forall x, x <> t -> upd (phase_of s) t FastYield x = phase_of s x)
     by (intros; now apply upd_other).
   assert (Hnin : ~ In t (infl s)).
-  { intros H. apply (S_infl s S) in H. destruct H as [H|(f & H & _)]; congruence. }
+  { intros H. apply (S_infl s St) in H. destruct H as [H|(f & H & _)]; congruence. }
   constructor; cbn.
   - now right.
   - intros x. unfold resv_phase; cbn. destruct (Nat.eq_dec x t) as [->|Hne].
     + rewrite upd_same. split; [intros _; now left|intros _; now left].
     + rewrite Hold by assumption. split.
-      * intros [H|H]; [congruence|]. apply (S_infl s S) in H. exact H.
-      * intros H. right. apply (S_infl s S). exact H.
-  - constructor; [exact Hnin|apply (S_inflnd s S)].
+      * intros [H|H]; [congruence|]. apply (S_infl s St) in H. exact H.
+      * intros H. right. apply (S_infl s St). exact H.
+  - constructor; [exact Hnin|apply (S_inflnd s St)].
   - intros ? ? [].
   - intros x f H1 H2. destruct (Nat.eq_dec x t) as [->|Hne].
     + rewrite upd_same in H1. discriminate.
-    + rewrite Hold in H1 by assumption. pose proof (S_pend s S x f H1 H2) as H. now rewrite Hw in H.
+    + rewrite Hold in H1 by assumption. pose proof (S_pend s St x f H1 H2) as H. now rewrite Hw in H.
   - intros x f H1. destruct (Nat.eq_dec x t) as [->|Hne].
     + rewrite upd_same in H1. discriminate.
-    + rewrite Hold in H1 by assumption. apply (S_fresh s S x f H1).
+    + rewrite Hold in H1 by assumption. apply (S_fresh s St x f H1).
   - intros x1 x2 f H1 H2.
     destruct (Nat.eq_dec x1 t) as [->|Hne1]; [rewrite upd_same in H1; discriminate|].
     destruct (Nat.eq_dec x2 t) as [->|Hne2]; [rewrite upd_same in H2; discriminate|].
-    rewrite Hold in H1, H2 by assumption. eapply (S_inj s S); eauto.
+    rewrite Hold in H1, H2 by assumption. eapply (S_inj s St); eauto.
   - constructor.
   - apply subseq_nil_l.
 Qed.
@@ -176,15 +176,15 @@ Lemma enqueue_S s t :
              (S (nfut s)) (upd (phase_of s) t (Waiting (nfut s))) (mustc s)
              (init0 s) (held s) (infl s) (extra s) (dropped s) (enq s ++ [(t, nfut s)])).
 Proof.
-  intros S Hp Hv.
+  intros St Hp Hv.
   set (f0 := nfut s).
   assert (Hold : forall x, x <> t -> upd (phase_of s) t (Waiting f0) x = phase_of s x)
     by (intros; now apply upd_other).
   assert (Hfold : forall x f, phase_of s x = Waiting f -> upd (futs s) f0 FPending f = futs s f).
-  { intros x f H. apply upd_other. pose proof (S_fresh s S x f H). unfold f0. lia. }
+  { intros x f H. apply upd_other. pose proof (S_fresh s St x f H). unfold f0. lia. }
   constructor; cbn.
   - now left.
-  - intros x. rewrite (S_infl s S x). unfold resv_phase; cbn.
+  - intros x. rewrite (S_infl s St x). unfold resv_phase; cbn.
     destruct (Nat.eq_dec x t) as [->|Hne].
     + rewrite upd_same, Hp. split.
       * intros [H|(f & H1 & H2)]; discriminate.
@@ -195,88 +195,88 @@ Proof.
         now rewrite (Hfold x f H1).
       * intros [H|(f & H1 & H2)]; auto. right. exists f. split; [exact H1|].
         now rewrite (Hfold x f H1) in H2.
-  - apply (S_inflnd s S).
+  - apply (S_inflnd s St).
   - intros x f H. apply in_app_or in H. destruct H as [H|[H|[]]].
-    + destruct (S_w s S x f H) as [H1 H2].
+    + destruct (S_w s St x f H) as [H1 H2].
       assert (x <> t) by (intros ->; congruence).
       rewrite Hold by assumption. split; [exact H1|]. now rewrite (Hfold x f H1).
     + injection H as <- <-. rewrite !upd_same. split; [reflexivity|discriminate].
   - intros x f H1 H2. apply in_or_app. destruct (Nat.eq_dec x t) as [->|Hne].
     + rewrite upd_same in H1. injection H1 as <-. right. left. reflexivity.
     + rewrite Hold in H1 by assumption. left. rewrite (Hfold x f H1) in H2.
-      apply (S_pend s S x f H1 H2).
+      apply (S_pend s St x f H1 H2).
   - intros x f H1. destruct (Nat.eq_dec x t) as [->|Hne].
     + rewrite upd_same in H1. injection H1 as <-. unfold f0. lia.
-    + rewrite Hold in H1 by assumption. pose proof (S_fresh s S x f H1). lia.
+    + rewrite Hold in H1 by assumption. pose proof (S_fresh s St x f H1). lia.
   - intros x1 x2 f H1 H2.
     destruct (Nat.eq_dec x1 t) as [->|Hne1]; destruct (Nat.eq_dec x2 t) as [->|Hne2]; auto.
     + rewrite upd_same in H1. injection H1 as <-. rewrite Hold in H2 by assumption.
-      pose proof (S_fresh s S x2 f0 H2). unfold f0 in *. lia.
+      pose proof (S_fresh s St x2 f0 H2). unfold f0 in *. lia.
     + rewrite upd_same in H2. injection H2 as <-. rewrite Hold in H1 by assumption.
-      pose proof (S_fresh s S x1 f0 H1). unfold f0 in *. lia.
-    + rewrite Hold in H1, H2 by assumption. eapply (S_inj s S); eauto.
-  - rewrite map_app. cbn. apply NoDup_app_tail1; [apply (S_nd s S)|].
+      pose proof (S_fresh s St x1 f0 H1). unfold f0 in *. lia.
+    + rewrite Hold in H1, H2 by assumption. eapply (S_inj s St); eauto.
+  - rewrite map_app. cbn. apply NoDup_app_tail1; [apply (S_nd s St)|].
     intros H. apply in_map_iff in H. destruct H as ([x f] & E & H). cbn in E. subst x.
-    destruct (S_w s S t f H) as [H1 _]. congruence.
-  - apply subseq_app_tail, (S_fifo s S).
+    destruct (S_w s St t f H) as [H1 _]. congruence.
+  - apply subseq_app_tail, (S_fifo s St).
 Qed.
 
 (* ---------- release ---------- *)
 Lemma rel_core_S s : Struct s -> Struct (rel_core s).
 Proof.
-  intros S. unfold rel_core. pose proof (handoff_spec (waiters s) (futs s)) as HS.
+  intros St. unfold rel_core. pose proof (handoff_spec (waiters s) (futs s)) as HS.
   destruct (handoff (waiters s) (futs s)) as [[o ws'] fu']. destruct o as [w|].
   - destruct HS as (pre & f & Ews & Hfc & Hfu & Hpre). subst fu'.
     assert (Hin : In (w, f) (waiters s)) by (rewrite Ews; apply in_or_app; right; left; reflexivity).
-    destruct (S_w s S w f Hin) as [Hpw Hns].
+    destruct (S_w s St w f Hin) as [Hpw Hns].
     assert (Hsuf : subseq ws' (waiters s)).
     { rewrite Ews. replace (pre ++ (w, f) :: ws') with ((pre ++ [(w, f)]) ++ ws')
         by (rewrite <- app_assoc; reflexivity). apply subseq_suffix. }
     assert (Hwnot : ~ In w (map fst ws')).
-    { pose proof (S_nd s S) as Hn. rewrite Ews, map_app in Hn. cbn in Hn.
+    { pose proof (S_nd s St) as Hn. rewrite Ews, map_app in Hn. cbn in Hn.
       apply NoDup_remove_2 in Hn. intros H. apply Hn. apply in_or_app. right. exact H. }
     assert (Hwni : ~ In w (infl s)).
-    { intros H. apply (S_infl s S) in H. destruct H as [H|(f' & H1 & H2)]; [congruence|].
+    { intros H. apply (S_infl s St) in H. destruct H as [H|(f' & H1 & H2)]; [congruence|].
       assert (f' = f) by congruence. subst. contradiction. }
     constructor; cbn.
-    + left. destruct (S_pos s S) as [H|H]; [exact H|]. rewrite H in Hin. destruct Hin.
+    + left. destruct (S_pos s St) as [H|H]; [exact H|]. rewrite H in Hin. destruct Hin.
     + intros x. unfold resv_phase; cbn. split.
       * intros [<-|H].
         -- right. exists f. split; [exact Hpw|apply upd_same].
-        -- apply (S_infl s S) in H. destruct H as [H|(f' & H1 & H2)]; [now left|].
+        -- apply (S_infl s St) in H. destruct H as [H|(f' & H1 & H2)]; [now left|].
            right. exists f'. split; [exact H1|]. rewrite upd_other; [exact H2|]. intros ->. contradiction.
       * intros [H|(f' & H1 & H2)].
-        -- right. apply (S_infl s S). now left.
+        -- right. apply (S_infl s St). now left.
         -- destruct (Nat.eq_dec f' f) as [->|Hne].
-           ++ left. eapply (S_inj s S); eauto.
-           ++ rewrite upd_other in H2 by assumption. right. apply (S_infl s S). right. eauto.
-    + constructor; [exact Hwni|apply (S_inflnd s S)].
+           ++ left. eapply (S_inj s St); eauto.
+           ++ rewrite upd_other in H2 by assumption. right. apply (S_infl s St). right. eauto.
+    + constructor; [exact Hwni|apply (S_inflnd s St)].
     + intros x f' Hx. assert (Hx' : In (x, f') (waiters s)) by (eapply subseq_in; eauto).
-      destruct (S_w s S x f' Hx') as [H1 H2]. split; [exact H1|].
+      destruct (S_w s St x f' Hx') as [H1 H2]. split; [exact H1|].
       destruct (Nat.eq_dec f' f) as [->|Hne].
-      * exfalso. assert (x = w) by (eapply (S_inj s S); eauto). subst x.
+      * exfalso. assert (x = w) by (eapply (S_inj s St); eauto). subst x.
         apply Hwnot. apply in_map_iff. exists (w, f). split; [reflexivity|exact Hx].
       * now rewrite upd_other by assumption.
     + intros x f' H1 H2. destruct (Nat.eq_dec f' f) as [->|Hne];
         [rewrite upd_same in H2; discriminate|].
-      rewrite upd_other in H2 by assumption. pose proof (S_pend s S x f' H1 H2) as Hx.
+      rewrite upd_other in H2 by assumption. pose proof (S_pend s St x f' H1 H2) as Hx.
       rewrite Ews in Hx. apply in_app_or in Hx. destruct Hx as [Hx|[Hx|Hx]].
       * apply Hpre in Hx. congruence.
       * congruence.
       * exact Hx.
-    + apply (S_fresh s S).
-    + apply (S_inj s S).
-    + eapply subseq_nodup; [apply subseq_map, Hsuf|apply (S_nd s S)].
-    + eapply subseq_trans; [exact Hsuf|apply (S_fifo s S)].
+    + apply (S_fresh s St).
+    + apply (S_inj s St).
+    + eapply subseq_nodup; [apply subseq_map, Hsuf|apply (S_nd s St)].
+    + eapply subseq_trans; [exact Hsuf|apply (S_fifo s St)].
   - destruct HS as (-> & -> & Hall).
     constructor; cbn.
     + now right.
-    + apply (S_infl s S).
-    + apply (S_inflnd s S).
+    + apply (S_infl s St).
+    + apply (S_inflnd s St).
     + intros x f' [].
-    + intros x f' H1 H2. pose proof (S_pend s S x f' H1 H2) as Hx. apply Hall in Hx. congruence.
-    + apply (S_fresh s S).
-    + apply (S_inj s S).
+    + intros x f' H1 H2. pose proof (S_pend s St x f' H1 H2) as Hx. apply Hall in Hx. congruence.
+    + apply (S_fresh s St).
+    + apply (S_inj s St).
     + constructor.
     + apply subseq_nil_l.
 Qed.
@@ -324,78 +324,78 @@ Lemma cancel_fut_S s t f :
   Struct (mk (fast s) (maxv s) (value s) (waiters s) (upd (futs s) f FCancelled) (nfut s) (phase_of s) (mustc s)
              (init0 s) (held s) (infl s) (extra s) (dropped s) (enq s)).
 Proof.
-  intros S Hp Hf.
+  intros St Hp Hf.
   assert (Hset : forall f', upd (futs s) f FCancelled f' = FSet <-> futs s f' = FSet).
   { intros f'. destruct (Nat.eq_dec f' f) as [->|Hne].
     - rewrite upd_same, Hf. split; discriminate.
     - now rewrite upd_other by assumption. }
   constructor; cbn.
-  - apply (S_pos s S).
-  - intros x. rewrite (S_infl s S x). unfold resv_phase; cbn. split.
+  - apply (S_pos s St).
+  - intros x. rewrite (S_infl s St x). unfold resv_phase; cbn. split.
     + intros [H|(f' & H1 & H2)]; auto. right. exists f'. split; [exact H1|now apply Hset].
     + intros [H|(f' & H1 & H2)]; auto. right. exists f'. split; [exact H1|now apply Hset].
-  - apply (S_inflnd s S).
-  - intros x f' Hx. destruct (S_w s S x f' Hx) as [H1 H2]. split; [exact H1|]. now rewrite Hset.
+  - apply (S_inflnd s St).
+  - intros x f' Hx. destruct (S_w s St x f' Hx) as [H1 H2]. split; [exact H1|]. now rewrite Hset.
   - intros x f' H1 H2. destruct (Nat.eq_dec f' f) as [->|Hne];
       [rewrite upd_same in H2; discriminate|].
-    rewrite upd_other in H2 by assumption. apply (S_pend s S x f' H1 H2).
-  - apply (S_fresh s S).
-  - apply (S_inj s S).
-  - apply (S_nd s S).
-  - apply (S_fifo s S).
+    rewrite upd_other in H2 by assumption. apply (S_pend s St x f' H1 H2).
+  - apply (S_fresh s St).
+  - apply (S_inj s St).
+  - apply (S_nd s St).
+  - apply (S_fifo s St).
 Qed.
 
 (* ---------- resume ---------- *)
 Lemma resv_not_in_waiters s t : Struct s -> resv_phase s t -> ~ In t (map fst (waiters s)).
 Proof.
-  intros S Hr H. apply in_map_iff in H. destruct H as ([x f] & E & H). cbn in E. subst x.
-  destruct (S_w s S t f H) as [H1 H2]. destruct Hr as [Hr|(f' & Hr1 & Hr2)]; [congruence|].
+  intros St Hr H. apply in_map_iff in H. destruct H as ([x f] & E & H). cbn in E. subst x.
+  destruct (S_w s St t f H) as [H1 H2]. destruct Hr as [Hr|(f' & Hr1 & Hr2)]; [congruence|].
   assert (f' = f) by congruence. subst. contradiction.
 Qed.
 
 Lemma leave_S s t : Struct s -> resv_phase s t -> Struct (leave s t).
 Proof.
-  intros S Hr.
+  intros St Hr.
   assert (Hold : forall x, x <> t -> upd (phase_of s) t Idle x = phase_of s x)
     by (intros; now apply upd_other).
   assert (Hnw : ~ In t (map fst (waiters s))) by (now apply resv_not_in_waiters).
   constructor; cbn.
-  - apply (S_pos s S).
-  - intros x. rewrite (in_remove_one t x (infl s) (S_inflnd s S)). unfold resv_phase; cbn.
+  - apply (S_pos s St).
+  - intros x. rewrite (in_remove_one t x (infl s) (S_inflnd s St)). unfold resv_phase; cbn.
     destruct (Nat.eq_dec x t) as [->|Hne].
     + rewrite upd_same. split; [intros [_ H]; contradiction|].
       intros [H|(f & H & _)]; discriminate.
-    + rewrite Hold by assumption. rewrite (S_infl s S x). unfold resv_phase. tauto.
-  - apply nodup_remove_one, (S_inflnd s S).
-  - intros x f Hx. destruct (S_w s S x f Hx) as [H1 H2].
+    + rewrite Hold by assumption. rewrite (S_infl s St x). unfold resv_phase. tauto.
+  - apply nodup_remove_one, (S_inflnd s St).
+  - intros x f Hx. destruct (S_w s St x f Hx) as [H1 H2].
     assert (x <> t).
     { intros ->. apply Hnw. apply in_map_iff. exists (t, f). split; [reflexivity|exact Hx]. }
     rewrite Hold by assumption. auto.
   - intros x f H1 H2. destruct (Nat.eq_dec x t) as [->|Hne];
       [rewrite upd_same in H1; discriminate|].
-    rewrite Hold in H1 by assumption. apply (S_pend s S x f H1 H2).
+    rewrite Hold in H1 by assumption. apply (S_pend s St x f H1 H2).
   - intros x f H1. destruct (Nat.eq_dec x t) as [->|Hne];
       [rewrite upd_same in H1; discriminate|].
-    rewrite Hold in H1 by assumption. apply (S_fresh s S x f H1).
+    rewrite Hold in H1 by assumption. apply (S_fresh s St x f H1).
   - intros x1 x2 f H1 H2.
     destruct (Nat.eq_dec x1 t) as [->|Hne1]; [rewrite upd_same in H1; discriminate|].
     destruct (Nat.eq_dec x2 t) as [->|Hne2]; [rewrite upd_same in H2; discriminate|].
-    rewrite Hold in H1, H2 by assumption. eapply (S_inj s S); eauto.
-  - apply (S_nd s S).
-  - apply (S_fifo s S).
+    rewrite Hold in H1, H2 by assumption. eapply (S_inj s St); eauto.
+  - apply (S_nd s St).
+  - apply (S_fifo s St).
 Qed.
 
 
 Lemma leave_A s t : Struct s -> Arith 0 s -> resv_phase s t -> Arith 1 (leave s t).
 Proof.
-  intros S A Hr. destruct A as [Hc Hle Hd Hn].
-  assert (Hin : In t (infl s)) by (apply (S_infl s S); exact Hr).
+  intros St A Hr. destruct A as [Hc Hle Hd Hn].
+  assert (Hin : In t (infl s)) by (apply (S_infl s St); exact Hr).
   pose proof (remove_one_length t (infl s) Hin) as Hl.
-  constructor; prj; [lia|exact Hle|exact Hd|exact Hn].
+  constructor; prj; [unfold tid in *; lia|exact Hle|exact Hd|exact Hn].
 Qed.
 
 Lemma add_held_S s t : Struct s -> Struct (add_held s t).
-Proof. intros S. unfold add_held, set_held. now apply struct_ghost. Qed.
+Proof. intros St. unfold add_held, set_held. now apply struct_ghost. Qed.
 
 Lemma add_held_A s t : Arith 1 s -> Arith 0 (add_held s t).
 Proof. intros [Hc Hle Hd Hn]. constructor; cbn; [lia|exact Hle|exact Hd|exact Hn]. Qed.
@@ -408,7 +408,7 @@ Qed.
 
 Lemma cancel_release_inv s : Struct s -> Arith 1 s -> Inv (fst (cancel_release s)).
 Proof.
-  intros S A. unfold cancel_release. destruct (at_max s) eqn:Em; cbn [fst].
+  intros St A. unfold cancel_release. destruct (at_max s) eqn:Em; cbn [fst].
   - constructor; [unfold set_dropped; now apply struct_ghost|now apply dropped_A].
   - constructor; [now apply rel_core_S|now apply rel_core_A].
 Qed.
@@ -419,41 +419,41 @@ Lemma wake_futcancelled_S s t f :
              (upd (phase_of s) t Idle) (upd (mustc s) t false)
              (init0 s) (held s) (remove_one t (infl s)) (extra s) (dropped s) (enq s)).
 Proof.
-  intros S Hp Hf.
+  intros St Hp Hf.
   assert (Hold : forall x, x <> t -> upd (phase_of s) t Idle x = phase_of s x)
     by (intros; now apply upd_other).
   assert (Hni : ~ In t (infl s)).
-  { intros H. apply (S_infl s S) in H. destruct H as [H|(f' & H1 & H2)]; [congruence|].
+  { intros H. apply (S_infl s St) in H. destruct H as [H|(f' & H1 & H2)]; [congruence|].
     assert (f' = f) by congruence. subst. congruence. }
   rewrite (remove_one_notin t (infl s) Hni).
   assert (Hgone : ~ In t (map fst (remove_fut f (waiters s)))).
-  { apply remove_fut_gone; [apply (S_nd s S)|]. intros t' f' H. destruct (S_w s S t' f' H) as [H1 _].
-    split; [intros ->; eapply (S_inj s S); eauto|intros ->; congruence]. }
+  { apply remove_fut_gone; [apply (S_nd s St)|]. intros t' f' H. destruct (S_w s St t' f' H) as [H1 _].
+    split; [intros ->; eapply (S_inj s St); eauto|intros ->; congruence]. }
   constructor; cbn.
-  - destruct (S_pos s S) as [H|H]; [now left|right; now rewrite H].
-  - intros x. rewrite (S_infl s S x). unfold resv_phase; cbn. destruct (Nat.eq_dec x t) as [->|Hne].
+  - destruct (S_pos s St) as [H|H]; [now left|right; now rewrite H].
+  - intros x. rewrite (S_infl s St x). unfold resv_phase; cbn. destruct (Nat.eq_dec x t) as [->|Hne].
     + rewrite upd_same, Hp. split.
       * intros [H|(f' & H1 & H2)]; [discriminate|]. injection H1 as <-. congruence.
       * intros [H|(f' & H1 & _)]; discriminate.
     + rewrite Hold by assumption. tauto.
-  - apply (S_inflnd s S).
+  - apply (S_inflnd s St).
   - intros x f' Hx.
     assert (x <> t).
     { intros ->. apply Hgone. apply in_map_iff. exists (t, f'). split; [reflexivity|exact Hx]. }
-    rewrite Hold by assumption. apply (S_w s S). eapply subseq_in; [apply remove_fut_subseq|exact Hx].
+    rewrite Hold by assumption. apply (S_w s St). eapply subseq_in; [apply remove_fut_subseq|exact Hx].
   - intros x f' H1 H2. destruct (Nat.eq_dec x t) as [->|Hne];
       [rewrite upd_same in H1; discriminate|].
-    rewrite Hold in H1 by assumption. apply in_remove_fut_other; [apply (S_pend s S x f' H1 H2)|].
+    rewrite Hold in H1 by assumption. apply in_remove_fut_other; [apply (S_pend s St x f' H1 H2)|].
     congruence.
   - intros x f' H1. destruct (Nat.eq_dec x t) as [->|Hne];
       [rewrite upd_same in H1; discriminate|].
-    rewrite Hold in H1 by assumption. apply (S_fresh s S x f' H1).
+    rewrite Hold in H1 by assumption. apply (S_fresh s St x f' H1).
   - intros x1 x2 f' H1 H2.
     destruct (Nat.eq_dec x1 t) as [->|Hne1]; [rewrite upd_same in H1; discriminate|].
     destruct (Nat.eq_dec x2 t) as [->|Hne2]; [rewrite upd_same in H2; discriminate|].
-    rewrite Hold in H1, H2 by assumption. eapply (S_inj s S); eauto.
-  - eapply subseq_nodup; [apply subseq_map, remove_fut_subseq|apply (S_nd s S)].
-  - eapply subseq_trans; [apply remove_fut_subseq|apply (S_fifo s S)].
+    rewrite Hold in H1, H2 by assumption. eapply (S_inj s St); eauto.
+  - eapply subseq_nodup; [apply subseq_map, remove_fut_subseq|apply (S_nd s St)].
+  - eapply subseq_trans; [apply remove_fut_subseq|apply (S_fifo s St)].
 Qed.
 
 Lemma arith_same k s s' :
@@ -468,7 +468,7 @@ Qed.
 (* ---------- one step, every reachable state ---------- *)
 Lemma step_inv s o : Inv s -> Inv (fst (step s o)).
 Proof.
-  intros I. pose proof (I_struct s I) as S. pose proof (I_arith s I) as A.
+  intros I. pose proof (I_struct s I) as St. pose proof (I_arith s I) as A.
   destruct o as [t|t|t|t|t]; cbn [step].
   - (* AcqBegin *)
     destruct (is_idle (phase_of s t)) eqn:Ei; cbn [negb fst]; [|exact I].
@@ -482,16 +482,16 @@ Proof.
       { constructor; [apply enqueue_S; auto|]. eapply arith_same; [exact A|..]; reflexivity. }
       rewrite Ev in HI. destruct (waiters s); exact HI.
     + destruct (waiters s) as [|w0 wr] eqn:Ew.
-      * destruct (fast s) eqn:Ef; cbn [fst].
+      * destruct (fast s); cbn [fst].
         -- constructor.
-           ++ pose proof (take_S s v (t :: held s) S Ew) as H. exact H.
+           ++ apply take_S; auto.
            ++ destruct A as [Hc Hle Hd Hn]. constructor; cbn in *; [lia| |exact Hd|exact Hn].
               intros m E. destruct (Hle m E). lia.
         -- constructor.
            ++ apply take_yield_S; auto.
            ++ destruct A as [Hc Hle Hd Hn]. constructor; cbn in *; [lia| |exact Hd|exact Hn].
               intros m E. destruct (Hle m E). lia.
-      * exfalso. destruct (S_pos s S) as [H|H]; [lia|congruence].
+      * exfalso. destruct (S_pos s St) as [H|H]; [lia|congruence].
   - (* AcqNowait *)
     destruct (is_idle (phase_of s t)) eqn:Ei; cbn [negb fst]; [|exact I].
     destruct (value s) as [|v] eqn:Ev; cbn [fst]; [exact I|].
@@ -507,11 +507,11 @@ Proof.
       * apply rel_core_S. unfold set_held. now apply struct_ghost.
       * apply rel_core_A; [|rewrite at_max_set_held; exact Em].
         pose proof (remove_one_length t (held s) Eh) as Hl.
-        destruct A as [Hc Hle Hd Hn]. constructor; cbn; [lia|exact Hle|exact Hd|exact Hn].
+        destruct A as [Hc Hle Hd Hn]. constructor; prj; [unfold tid in *; lia|exact Hle|exact Hd|exact Hn].
     + rewrite <- rel_core_set_extra. constructor.
       * apply rel_core_S. unfold set_extra. now apply struct_ghost.
       * apply rel_core_A; [|rewrite at_max_set_extra; exact Em].
-        destruct A as [Hc Hle Hd Hn]. constructor; cbn; [lia|exact Hle|lia|exact Hn].
+        destruct A as [Hc Hle Hd Hn]. constructor; prj; [unfold tid in *; lia|exact Hle|lia|exact Hn].
   - (* Resume *)
     destruct (phase_of s t) as [| |f] eqn:Ep; [exact I| |].
     + assert (Hr : resv_phase s t) by (left; exact Ep).
@@ -526,7 +526,7 @@ Proof.
       * cbn [fst leave fast maxv value waiters futs nfut phase_of mustc init0 held infl extra dropped enq].
         constructor; [now apply wake_futcancelled_S|].
         assert (Hni : ~ In t (infl s)).
-        { intros H. apply (S_infl s S) in H. destruct H as [H|(f' & H1 & H2)]; [congruence|].
+        { intros H. apply (S_infl s St) in H. destruct H as [H|(f' & H1 & H2)]; [congruence|].
           assert (f' = f) by congruence. subst. congruence. }
         eapply arith_same; [exact A|..]; cbn; try reflexivity.
         now rewrite (remove_one_notin t (infl s) Hni).
